@@ -379,16 +379,27 @@ class ZoneDomain(Domain):
         cn = dotted(e.func)
         args = e.args
         if cn == 'int' and len(args) == 1 and not e.keywords:
-            lo, hi = self.interval(self.eval(args[0], s), s)
+            v0 = self.eval(args[0], s)
+            lo, hi = self.interval(v0, s)
             tl = math.trunc(lo) if abs(lo) != INF else lo
             th = math.trunc(hi) if abs(hi) != INF else hi
+            if v0.base is not None and (v0.isint or (v0.base in s.ints and v0.lo == math.floor(v0.lo)
+                                                     and v0.hi == math.floor(v0.hi))):
+                return AVal(v0.base, v0.lo, v0.hi, True, ((ZERO, tl, th),))     # int of a whole number
+            if v0.base is not None and lo >= 0:
+                return AVal(v0.base, v0.lo - BELOW_ONE, v0.hi, True, ((ZERO, tl, th),))
             return AVal(None, tl, th, True)
         if cn == 'int':
             return AVal.top(True)
         if cn in ('math.floor', 'floor') and len(args) == 1:
-            lo, hi = self.interval(self.eval(args[0], s), s)
-            return AVal(None, math.floor(lo) if abs(lo) != INF else lo,
-                        math.floor(hi) if abs(hi) != INF else hi, True)
+            v0 = self.eval(args[0], s)
+            lo, hi = self.interval(v0, s)
+            flo = math.floor(lo) if abs(lo) != INF else lo
+            fhi = math.floor(hi) if abs(hi) != INF else hi
+            if v0.base is not None:
+                # floor(x) in (x - 1, x]: keep the relation to x as well as the absolute bounds
+                return AVal(v0.base, v0.lo - BELOW_ONE, v0.hi, True, ((ZERO, flo, fhi),))
+            return AVal(None, flo, fhi, True)
         if cn in ('math.ceil', 'ceil') and len(args) == 1:
             lo, hi = self.interval(self.eval(args[0], s), s)
             return AVal(None, math.ceil(lo) if abs(lo) != INF else lo,
@@ -444,6 +455,16 @@ class ZoneDomain(Domain):
             s.dirty = True
             if not v.isint:
                 s.ints.discard(x)
+            else:
+                s.ints.add(x)
+            for var, elo, ehi in v.extra:
+                if var == ZERO:
+                    if ehi < INF:
+                        s.add(x, ZERO, ehi)
+                    if elo > -INF:
+                        s.add(ZERO, x, -elo)
+            s.dirty = True
+            s.close()
             return
         lo, hi = self.interval(v, s)
         extra: list[tuple[str, str, float]] = []
@@ -465,6 +486,13 @@ class ZoneDomain(Domain):
         s.add(ZERO, x, -lo)
         for a, b, c in extra:
             s.add(a, b, c)
+        for var, elo, ehi in v.extra:
+            if var == x:
+                continue
+            if ehi < INF:
+                s.add(x, var, ehi)
+            if elo > -INF:
+                s.add(var, x, -elo)
         if v.isint:
             s.ints.add(x)
         s.close()
